@@ -200,6 +200,8 @@ def generate(rng, index, tier):
             parent, children = None, []
         elif not lost and len(events) >= 2:
             events.append({'op': 'session_loss', 'how': rng.choice(['close', 'abort']), 'gap': _gap(rng)})
+            if rng.random() < 0.5:
+                events.append({'op': 'relogin', 'gap': rng.choice([0.5, 2.0, 5.0])})
             lost = True
     if rng.random() < 0.04:
         events[rng.randrange(len(events))]['gap'] = 61.0
@@ -284,6 +286,12 @@ def corpus(tier):
                           conn('p3', gap=1.0), close('p0', gap=1.0)]))
         out.append(_plan([conn('p2'), {'op': 'session_loss', 'how': how, 'gap': 1.0}, pot('p0', gap=0.0),
                           conn('p3', gap=1.0)]))
+    # 9c. session loss, then a new session while parent and children are still there
+    for how in ('close', 'abort'):
+        out.append(_plan([conn('p2'), pot('p0'), _ann('p0'), {'op': 'session_loss', 'how': how, 'gap': 1.0},
+                          {'op': 'relogin', 'gap': 2.0}, conn('p3', gap=2.0)]))
+        out.append(_plan([conn('p2'), pot('p0'), _ann('p0'), {'op': 'session_loss', 'how': how, 'gap': 1.0},
+                          _ann('p0', order='lr', level=5, root='r2', gap=1.0), {'op': 'relogin', 'gap': 2.0}]))
     # 9b. connections made the indirect way: firewalled candidate, candidate answering both ways, child through the server
     out.append(_plan([conn('p2', indirect=True), pot('p0', 'p1'), _ann('p0'), conn('p3', gap=3.0)], firewalled=['p0']))
     out.append(_plan([conn('p2'), pot('p0', 'p1'), _ann('p0'), _ann('p1', level=3, root='r2')], pierce_all=True))
@@ -859,6 +867,28 @@ def _run(world: World, plan):
             server.send_to(OWN, M.ResetDistributed.Response())
             flags.add('reset')
             sig.append(('reset', dn.parent is not None, len(dn.children)))
+        elif op == 'relogin':
+            # a new session after the loss (connect + login through the public calls): what was advertised has to be said
+            # again to the new session, from the tree as it is now
+            if state['session_lost'] is not None and client.session is None:
+                async def again():
+                    await client.network.connect_server()
+                    await client.login()
+                call = world.call(alice, 'relogin', again)
+                state['pending'] += 1
+
+                def relogged(_task, call=call):
+                    state['pending'] -= 1
+                    touch()
+                    if call.outcome() == 'returned':
+                        flags.add('relogin')
+                        state['session_lost'] = None
+                        state['cause'] = 'relogin'
+                        state['cause_seq'] += 1
+                        sig.append(('relogin', dn.parent is not None, len(dn.children)))
+                    else:
+                        world.probe('relogin_failed')
+                call.task.add_done_callback(relogged)
         elif op == 'session_loss':
             session = server.session_of(OWN)
             if session is not None and not session.closed:
